@@ -87,6 +87,13 @@ SPIF_TYPE(strclass) SPIF_STRCLASS_VAR(ustr) = &s_class;
 
 const size_t buff_inc = 4096;
 
+/* Text of a string object as handed to the C library: never NULL, even
+   when the object or its buffer (empty string) is NULL. */
+static const char empty_text[] = "";
+#define SPIF_USTR_CSTR(obj)  ((SPIF_USTR_ISNULL(obj) || !(SPIF_USTR(obj)->s)) \
+                              ? ((const spif_charptr_t) empty_text) \
+                              : ((const spif_charptr_t) SPIF_USTR(obj)->s))
+
 spif_ustr_t
 spif_ustr_new(void)
 {
@@ -434,7 +441,7 @@ spif_ustr_casecmp(spif_ustr_t self, spif_ustr_t other)
     int c;
 
     SPIF_OBJ_COMP_CHECK_NULL(self, other);
-    c = strcasecmp((char *) SPIF_USTR_STR(self), (char *) SPIF_USTR_STR(other));
+    c = strcasecmp((char *) SPIF_USTR_CSTR(self), (char *) SPIF_USTR_CSTR(other));
     return SPIF_CMP_FROM_INT(c);
 }
 
@@ -444,7 +451,7 @@ spif_ustr_casecmp_with_ptr(spif_ustr_t self, spif_charptr_t other)
     int c;
 
     SPIF_OBJ_COMP_CHECK_NULL(self, other);
-    c = strcasecmp((char *) SPIF_USTR_STR(self), (char *) other);
+    c = strcasecmp((char *) SPIF_USTR_CSTR(self), (char *) other);
     return SPIF_CMP_FROM_INT(c);
 }
 
@@ -465,7 +472,7 @@ spif_ustr_cmp(spif_ustr_t self, spif_ustr_t other)
     int c;
 
     SPIF_OBJ_COMP_CHECK_NULL(self, other);
-    c = strcmp((char *) SPIF_USTR_STR(self), (char *) SPIF_USTR_STR(other));
+    c = strcmp((char *) SPIF_USTR_CSTR(self), (char *) SPIF_USTR_CSTR(other));
     return SPIF_CMP_FROM_INT(c);
 }
 
@@ -475,7 +482,7 @@ spif_ustr_cmp_with_ptr(spif_ustr_t self, spif_charptr_t other)
     int c;
 
     SPIF_OBJ_COMP_CHECK_NULL(self, other);
-    c = strcmp((char *) SPIF_USTR_STR(self), (char *) other);
+    c = strcmp((char *) SPIF_USTR_CSTR(self), (char *) other);
     return SPIF_CMP_FROM_INT(c);
 }
 
@@ -498,10 +505,10 @@ spif_ustr_find(spif_ustr_t self, spif_ustr_t other)
 
     ASSERT_RVAL(!SPIF_USTR_ISNULL(self), ((spif_stridx_t) -1));
     REQUIRE_RVAL(!SPIF_USTR_ISNULL(other), ((spif_stridx_t) -1));
-    tmp = strstr((const char *) SPIF_USTR_STR(self),
-                 (const char *) SPIF_USTR_STR(other));
+    tmp = strstr((const char *) SPIF_USTR_CSTR(self),
+                 (const char *) SPIF_USTR_CSTR(other));
     if (tmp) {
-        return (spif_stridx_t) ((spif_long_t) tmp - (spif_long_t) (SPIF_USTR_STR(self)));
+        return (spif_stridx_t) ((spif_long_t) tmp - (spif_long_t) (SPIF_USTR_CSTR(self)));
     } else {
         return (spif_stridx_t) (self->len);
     }
@@ -514,10 +521,10 @@ spif_ustr_find_from_ptr(spif_ustr_t self, spif_charptr_t other)
 
     ASSERT_RVAL(!SPIF_USTR_ISNULL(self), ((spif_stridx_t) -1));
     REQUIRE_RVAL((other != (spif_charptr_t) NULL), ((spif_stridx_t) -1));
-    tmp = strstr((const char *) SPIF_USTR_STR(self),
+    tmp = strstr((const char *) SPIF_USTR_CSTR(self),
                  (const char *) other);
     if (tmp) {
-        return (spif_stridx_t) ((spif_long_t) tmp - (spif_long_t) (SPIF_USTR_STR(self)));
+        return (spif_stridx_t) ((spif_long_t) tmp - (spif_long_t) (SPIF_USTR_CSTR(self)));
     } else {
         return (spif_stridx_t) (self->len);
     }
@@ -529,9 +536,9 @@ spif_ustr_index(spif_ustr_t self, spif_char_t c)
     char *tmp;
 
     ASSERT_RVAL(!SPIF_USTR_ISNULL(self), ((spif_stridx_t) -1));
-    tmp = index((const char *) SPIF_USTR_STR(self), c);
+    tmp = index((const char *) SPIF_USTR_CSTR(self), c);
     if (tmp) {
-        return (spif_stridx_t) ((spif_long_t) tmp - (spif_long_t) (SPIF_USTR_STR(self)));
+        return (spif_stridx_t) ((spif_long_t) tmp - (spif_long_t) (SPIF_USTR_CSTR(self)));
     } else {
         return (spif_stridx_t) (self->len);
     }
@@ -543,7 +550,7 @@ spif_ustr_ncasecmp(spif_ustr_t self, spif_ustr_t other, spif_ustridx_t cnt)
     int c;
 
     SPIF_OBJ_COMP_CHECK_NULL(self, other);
-    c = strncasecmp((char *) SPIF_USTR_STR(self), (char *) SPIF_USTR_STR(other), cnt);
+    c = strncasecmp((char *) SPIF_USTR_CSTR(self), (char *) SPIF_USTR_CSTR(other), cnt);
     return SPIF_CMP_FROM_INT(c);
 }
 
@@ -553,7 +560,7 @@ spif_ustr_ncasecmp_with_ptr(spif_ustr_t self, spif_charptr_t other, spif_ustridx
     int c;
 
     SPIF_OBJ_COMP_CHECK_NULL(self, other);
-    c = strncasecmp((char *) SPIF_USTR_STR(self), (char *) other, cnt);
+    c = strncasecmp((char *) SPIF_USTR_CSTR(self), (char *) other, cnt);
     return SPIF_CMP_FROM_INT(c);
 }
 
@@ -563,7 +570,7 @@ spif_ustr_ncmp(spif_ustr_t self, spif_ustr_t other, spif_ustridx_t cnt)
     int c;
 
     SPIF_OBJ_COMP_CHECK_NULL(self, other);
-    c = strncmp((char *) SPIF_USTR_STR(self), (char *) SPIF_USTR_STR(other), cnt);
+    c = strncmp((char *) SPIF_USTR_CSTR(self), (char *) SPIF_USTR_CSTR(other), cnt);
     return SPIF_CMP_FROM_INT(c);
 }
 
@@ -573,7 +580,7 @@ spif_ustr_ncmp_with_ptr(spif_ustr_t self, spif_charptr_t other, spif_ustridx_t c
     int c;
 
     SPIF_OBJ_COMP_CHECK_NULL(self, other);
-    c = strncmp((char *) SPIF_USTR_STR(self), (char *) other, cnt);
+    c = strncmp((char *) SPIF_USTR_CSTR(self), (char *) other, cnt);
     return SPIF_CMP_FROM_INT(c);
 }
 
@@ -646,9 +653,9 @@ spif_ustr_rindex(spif_ustr_t self, spif_char_t c)
     char *tmp;
 
     ASSERT_RVAL(!SPIF_USTR_ISNULL(self), ((spif_stridx_t) -1));
-    tmp = rindex((const char *) SPIF_USTR_STR(self), c);
+    tmp = rindex((const char *) SPIF_USTR_CSTR(self), c);
     if (tmp) {
-        return (spif_stridx_t) ((spif_long_t) tmp - (spif_long_t) (SPIF_USTR_STR(self)));
+        return (spif_stridx_t) ((spif_long_t) tmp - (spif_long_t) (SPIF_USTR_CSTR(self)));
     } else {
         return (spif_stridx_t) (self->len);
     }
@@ -817,14 +824,14 @@ double
 spif_ustr_to_float(spif_ustr_t self)
 {
     ASSERT_RVAL(!SPIF_USTR_ISNULL(self), (double) NAN);
-    return (double) (strtod((const char *)SPIF_USTR_STR(self), (char **) NULL));
+    return (double) (strtod((const char *)SPIF_USTR_CSTR(self), (char **) NULL));
 }
 
 size_t
 spif_ustr_to_num(spif_ustr_t self, int base)
 {
     ASSERT_RVAL(!SPIF_USTR_ISNULL(self), ((size_t) -1));
-    return (size_t) (strtoul((const char *) SPIF_USTR_STR(self), (char **) NULL, base));
+    return (size_t) (strtoul((const char *) SPIF_USTR_CSTR(self), (char **) NULL, base));
 }
 
 spif_bool_t
